@@ -299,6 +299,7 @@ pub fn main_entry() {
         std::process::exit(2);
     };
     let mut ctx = Ctx::new(root.clone(), &prop, tier, seed);
+    install_abort_reporter_for(&root, false);
     start_watchdog(prop.clone(), root.clone());
     // replay tier: committed regression inputs for this property
     let all = checks_for(&prop);
